@@ -79,7 +79,9 @@ HelperOK(r) ==
     LET t == r.t  a == Nums(t, r.a)  out == Num(t, r.out[1])
         b(v) == IF v THEN D!DOne ELSE D!DZero
     IN
-    CASE r.fn = "lerp" -> Within(t, r.out[1], <<<<a[1]>>, <<D!DNeg(D!DOne), a[1], a[3]>>, <<a[2], a[3]>>>>)
+    \* lerp is a (1 - t) + b t as written: two products, so the error is relative to |a (1 - t)| + |b t| (the endpoints come
+    \* back exactly at t = 0 and t = 1 whatever their magnitudes); ulerp is a + (b - a) t, relative to |a| + |a t| + |b t|
+    CASE r.fn = "lerp" -> Within(t, r.out[1], <<<<a[1], D!DSub(D!DOne, a[3])>>, <<a[2], a[3]>>>>)
       [] r.fn = "ulerp" -> Within(t, r.out[1], <<<<a[1]>>, <<D!DNeg(D!DOne), a[1], a[3]>>, <<a[2], a[3]>>>>)
       [] r.fn = "lerpfactor" ->
            LET n == D!DSub(a[1], a[2])  d == D!DSub(a[3], a[2])
@@ -105,6 +107,24 @@ HelperOK(r) ==
                yes == IF r.fn = "cmpt" THEN D!DZero ELSE D!DOne
                no == IF r.fn = "cmpt" THEN D!DInt(D!DSign(D!DSub(a[1], a[2]))) ELSE D!DZero
            IN  (inside => D!DEq(out, yes)) /\ (outside => D!DEq(out, no)) /\ (D!DEq(out, yes) \/ D!DEq(out, no))
+
+\* integer element types (plain integers below 2^30): the same definitions, evaluated exactly
+IAbs(x) == IF x < 0 THEN -x ELSE x
+ISgn(x) == IF x > 0 THEN 1 ELSE IF x < 0 THEN -1 ELSE 0
+TruncDiv8(n) == IF n >= 0 THEN n \div 8 ELSE -((-n) \div 8)            \* conversion to an integer type truncates
+IntHelperOK(r) ==
+    LET a == r.a  uns == r.t \in {"u8", "u16", "u32"} IN
+    CASE r.fn = "eqabs" -> (r.out = 1) = (IAbs(a[1] - a[2]) <= a[3])
+      [] r.fn = "eqrel" -> (r.out = 1) = (IAbs(a[1] - a[2]) <= a[3] * IAbs(a[1]))
+      \* cmp is DEFINED as sign(a - b) in the element type: for 32-bit unsigned operands with a < b the difference wraps (the
+      \* narrower unsigned types are promoted to int first); that case is left unjudged (DESIGN 11.5)
+      [] r.fn = "cmp" -> (r.t = "u32" /\ a[1] < a[2]) \/ r.out = ISgn(a[1] - a[2])
+      [] r.fn = "clamp" -> r.out = (IF a[1] < a[2] THEN a[2] ELSE IF a[3] < a[1] THEN a[3] ELSE a[1])
+      [] r.fn = "abs" -> r.out = IAbs(a[1])
+      [] r.fn = "sign" -> r.out = ISgn(a[1])
+      \* a (8 - k) / 8 + b k / 8, truncated
+      [] r.fn \in {"lerp", "ulerp"} -> r.out = TruncDiv8(a[1] * (8 - a[3]) + a[2] * a[3])
+      [] OTHER -> FALSE
 
 \* ---- roots -------------------------------------------------------------------------------------
 KRoot(fn) == IF fn \in {"linear", "quadratic"} THEN 64 ELSE 4096
@@ -223,11 +243,11 @@ PackedOK(r) == r.q4 = r.p /\ r.q3 = <<(r.p[1] % 256) + 65280, r.p[2]>>
 
 Judge(r) ==
     CASE r.e = "stratum" -> StratumOK(r) [] r.e = "delta" -> DeltaOK(r) [] r.e = "frun" -> FrunOK(r)
-      [] r.e = "sd" -> SdOK(r) [] r.e = "idiv" -> IdivOK(r) [] r.e = "fn" -> HelperOK(r)
+      [] r.e = "sd" -> SdOK(r) [] r.e = "idiv" -> IdivOK(r) [] r.e = "fn" -> HelperOK(r) [] r.e = "ifn" -> IntHelperOK(r)
       [] r.e = "roots" -> RootsOK(r) [] r.e = "delegate" -> DelegateOK(r)
       [] r.e = "hsv" -> HsvOK(r) [] r.e = "hsvi" -> HsviOK(r) [] r.e = "packed" -> PackedOK(r)
       [] OTHER -> FALSE
-What(r) == CASE r.e \in {"stratum", "delta", "frun", "fn", "delegate"} -> <<r.e, r.fn>>
+What(r) == CASE r.e \in {"stratum", "delta", "frun", "fn", "delegate"} -> <<r.e, r.fn>> [] r.e = "ifn" -> <<r.e, r.fn, r.t>>
              [] r.e = "roots" -> <<r.e, r.fn, r.kind, r.t>>
              [] r.e = "hsv" -> <<r.e, r.dir, r.t>>
              [] OTHER -> <<r.e>>
